@@ -99,6 +99,7 @@ type Exec struct {
 	inInit        bool
 	params        map[string]int
 	mapAllOrders  bool
+	mapRotate     int // every map range starts mapRotate slots into the insertion order (zzrt.MapRotate)
 	lastRecovered *targetPanic
 	traceW        io.Writer
 	race          *raceState
